@@ -376,3 +376,8 @@ MUTATIONS += [
 MUTATIONS += [
  dict(name="benign-c03-supply-update-in-helper", props=["C03"], benign=True, patch="selftest/patches/benign-c03-supply-update-in-helper.diff"),
 ]
+MUTATIONS += [
+ dict(name="benign-c02-flag-rejection-as-intersects", props=["C02"], benign=True, file="radix-engine/src/system/system.rs",
+      find="        let type_info = TypeInfoBlueprint::get_type(node_id, self.api)?;\n\n        if flags.contains(LockFlags::UNMODIFIED_BASE) || flags.contains(LockFlags::FORCE_WRITE) {",
+      replace="        let type_info = TypeInfoBlueprint::get_type(node_id, self.api)?;\n\n        if flags.intersects(LockFlags::UNMODIFIED_BASE | LockFlags::FORCE_WRITE) {"),
+]
